@@ -306,6 +306,7 @@ package storage
 //@   safety index nil
 //@   ensures notfound: !old(fileHas(q(height))) ==> result1 != nil
 //@   ensures foreign_error: Cause(result1) != ErrInvalidHeight
+//@   ensures absent_means_absent: result1 == storage.ErrNotFound ==> !old(fileHas(q(height)))
 //@   ensures content: result1 == nil ==> old(fileHas(q(height))) && !blobtail(fileBlob(q(height))) && len(result0) == fileN(q(height))
 //@        && forall(k, 0, len(result0), result0[k] == blobhdr(fileBlob(q(height)), k)) && fresharr(result0)
 //@   ensures frame: stsame() && same(repo.height, repo.lastHeaders, repo.heights) && oldrows(repo.lastHeaders)
@@ -507,3 +508,27 @@ package storage
 //@   trusted
 //@   opt frame = freshonly
 //@   ensures other_prefix: blockFilesSame()
+
+// ---------------------------------------------------------------------------------------
+// Loading the block store (C09: "save followed by load", C10: what a restart finds).
+//
+// topFile: index of the newest block file = the first absent index minus one.
+//@ spec hdrsOf(r, f) = len(r.lastHeaders) == fileN(f) && forall(k, 0, len(r.lastHeaders), r.lastHeaders[k] == blobhdr(fileBlob(f), k))
+
+// On a loadable store (files 0..m present, all full but the newest, nothing above: exactly what
+// every crash image of C10 is) Load reads the files in order and, unless the store fails, ends
+// with the cached state of that chain: height = 1000*m + (headers in file m) - 1, the cache holds
+// file m, and the representation invariants of C09 hold.
+//@ func (*BlockRepository).Load
+//@   serves C09 C10
+//@   opt nomonitor = 1
+//@   opt partial = 1
+//@   requires repo != nil
+//@   let m = first(f, 0, 4000000, !fileHas(f)) - 1
+//@   requires m >= 0 && loadableAt(m)
+//@   loop 0 invariant 0 <= filesLoaded && filesLoaded <= m + 1 && stsame() && repo.heights != nil
+//@   loop 0 invariant filesLoaded == 0 ==> repo.height == -1 && previousFileSize == -1
+//@   loop 0 invariant filesLoaded > 0 ==> previousFileSize == fileN(filesLoaded - 1) && repo.height == 1000 * (filesLoaded - 1) + fileN(filesLoaded - 1) - 1 && hdrsOf(repo, filesLoaded - 1)
+//@   loop 1 invariant 0 <= _i && _i <= len(headers) && stsame() && repo.heights != nil && sinceloop(same(repo.height, repo.lastHeaders)) && sinceloop(sameseq(headers))
+//@   ensures loaded: [C09 C10] result == nil ==> repo.height == 1000 * m + fileN(m) - 1 && hdrsOf(repo, m) && stsame()
+//@   ensures invariants: [C09 C10] result == nil ==> InvMem(repo) && InvFull(repo) && InvTop(repo) && InvNewest(repo)
